@@ -60,10 +60,28 @@ def scenarios(seed, tier):
                     sc['radius'] = b['radius'] * [1.0, 1.4, 0.8][w % 3]
                 out.append(sc)
                 sid += 1
+    # raw representations (C19): the binding hands states to the core verbatim - non-unit quaternions in a
+    # goal sample, a start state, an SE(3) rotation or the centre of a bounded SO(3) space are legal inputs
+    # (the core never normalises them) and must give the core's answer
+    extras = [
+        ('so3', dict(goals=[[0.0, 0.0, 1.2, 1.6]]), 'nonunit-goal'),
+        ('so3', dict(start=[0.0, 0.0, 0.2, 1.99]), 'nonunit-start'),
+        ('so3', dict(so3_bounds=[0.0, 0.0, 0.0, 2.0, 2.5]), 'nonunit-centre'),
+        ('so3', dict(so3_bounds=[0.0, 0.0, 0.0998334166468, 0.995004165278, 2.2]), 'cone'),
+        ('se3', dict(start=[0.5, 0.5, 0.5, 0.0, 0.0, 0.0, 2.0], goals=[[3.5, 3.5, 3.5, 0.0, 0.0, 1.2, 1.6]]), 'nonunit-rotation'),
+    ]
+    for v, over, tag in extras:
+        for pl in ['rrt', 'rrtc', 'rrtstar']:
+            b = dict(base[v])
+            b.update(over)
+            out.append(dict(id=sid, variant=v, planner=pl, seed=rnd.randrange(1, 10**6), bias=0.3, timeout=4.0, build=0.02, tag=tag, **b))
+            sid += 1
     # fault schedules (C20): python only. The full product variant x planner x kind x callback x
     # schedule (k-th call for several k, or every state of a region).
     faults = []
     kinds = ['raise', 'none', 'int', 'str']
+    # exception classes a binding might be tempted to treat specially
+    xkinds = ['raise-attr', 'raise-type', 'raise-key', 'raise-stop']
     ks = [2, 7] if tier == 'quick' else [1, 2, 3, 5, 9, 17, 40, 101]
     fid = 0
     for v in VARIANTS:
@@ -72,6 +90,11 @@ def scenarios(seed, tier):
             for kind in kinds:
                 for target in ['valid', 'sat']:
                     for sched in ([('k', k) for k in ks] + [('region', 0)]):
+                        faults.append(dict(id=10000 + len(faults), variant=v, planner=pl, seed=1000 + fid + (1 << 33) * (fid % 2), bias=0.1,
+                                           timeout=3.0, build=0.05, fault=dict(kind=kind, sched=sched[0], k=sched[1], target=target), **b))
+            for kind in xkinds:
+                for target in ['valid', 'sat']:
+                    for sched in [('k', ks[0]), ('region', 0)]:
                         faults.append(dict(id=10000 + len(faults), variant=v, planner=pl, seed=1000 + fid + (1 << 33) * (fid % 2), bias=0.1,
                                            timeout=3.0, build=0.05, fault=dict(kind=kind, sched=sched[0], k=sched[1], target=target), **b))
             fid += 1
@@ -113,8 +136,9 @@ def invalid(v, f, wall):
     raise ValueError(v)
 
 
-def build(v, base_mod):
+def build(v, base_mod, sc=None):
     B = base_mod
+    sc = sc or {}
     if v == 'rv':
         sp = B.RealVectorStateSpace(2, [(0.0, 10.0), (0.0, 10.0)])
         mk = lambda f: B.RealVectorState(f)
@@ -124,7 +148,8 @@ def build(v, base_mod):
         mk = lambda f: B.SO2State(f[0])
         pd = B.ProblemDefinition.from_so2
     elif v == 'so3':
-        sp = B.SO3StateSpace(None)
+        sb = sc.get('so3_bounds')
+        sp = B.SO3StateSpace((B.SO3State(sb[0], sb[1], sb[2], sb[3]), sb[4])) if sb else B.SO3StateSpace(None)
         mk = lambda f: B.SO3State(f[0], f[1], f[2], f[3])
         pd = B.ProblemDefinition.from_so3
     elif v == 'cmp':
@@ -153,7 +178,7 @@ def run_one(sc, twin=False):
     import oxmpl_py.base as B
     import oxmpl_py.geometric as G
     v = sc['variant']
-    sp, mk, pdctor = build(v, B)
+    sp, mk, pdctor = build(v, B, sc)
     log = []
     fault = sc.get('fault')
     counters = {'valid': 0, 'sat': 0}
@@ -177,6 +202,14 @@ def run_one(sc, twin=False):
         k = fault['kind']
         if k == 'raise':
             raise FaultInjected('injected')
+        if k == 'raise-attr':
+            raise AttributeError("'NoneType' object has no attribute 'value'")
+        if k == 'raise-type':
+            raise TypeError('injected')
+        if k == 'raise-key':
+            raise KeyError('injected')
+        if k == 'raise-stop':
+            raise StopIteration()
         if k == 'none':
             return None
         if k == 'int':
@@ -208,12 +241,19 @@ def run_one(sc, twin=False):
                 log.append(rec('s', f, 0))
                 if twin:
                     return False
-                if fault['kind'] == 'raise':
-                    raise FaultInjected('injected')
                 return do_fault()
             ans = sp.distance(s, goals[0]) <= sc['goal_r']
             log.append(rec('s', f, 1 if ans else 0))
             return ans
+
+        # the rest of the goal-region protocol the binding knows about (the planners never ask for it:
+        # a call is recorded, so that it would show in the stream)
+        threshold = sc['goal_r']
+
+        def distance_goal(self, s):
+            f = state_floats(v, s)
+            log.append(rec('d', f))
+            return sp.distance(s, goals[0])
 
         def sample_goal(self):
             g = goals[self.i % len(goals)]
